@@ -1,6 +1,6 @@
 """C03 (restat-pruning and frame clauses, modular): Plan::CleanNode and the frame of Plan::EdgeFinished (props/planunit.py)."""
 from engine.selftest import subst
-from props import planjobs, builderjobs, outdirtyjobs
+from props import planjobs, builderjobs, outdirtyjobs, scanjobs
 
 ID = "C03"
 USES_CPP = True
@@ -14,6 +14,7 @@ MANIFEST = {
                 "(2) frame of Plan::EdgeFinished: finishing a command never clears a dirty flag (a sibling input rebuilt earlier in the same build keeps its dependents wanted). "
                 "(3) Builder::FinishCommand (real text, callees by contract) calls CleanNode exactly for the outputs a successful restat command left with the mtime they had before, never after a failure. "
                 "(4) RecomputeOutputsDirtyCache (real text): the per-statement rule, including 'changing only the command line of a generator rule does not re-run it' and restat statements being judged by the recorded mtime. "
+                "(5) DependencyScan::RecomputeEdgesInputsDirty (real text): a statement becomes dirty exactly if a NON-order-only input is dirty - 'a change to an order-only input alone never re-runs its dependents'. "
                 "NOT decided: which edges the initial scan marks dirty (RecomputeNodeDirty, C++17), the generator-rule exception, 'exactly the affected commands' as a whole-build statement.",
         "design_ref": "DESIGN.md 5 C03",
     },
@@ -25,7 +26,7 @@ KEYS = ["M6", "M3"]
 
 
 def jobs(tier, mutant=None):
-    return planjobs.select(tier, KEYS, r'\bC03\b', mutant) + builderjobs.select(tier, ["B2"], r'\bC03\b', mutant) + outdirtyjobs.select(tier, ["O1"], r'\bC03\b', mutant)
+    return planjobs.select(tier, KEYS, r'\bC03\b', mutant) + builderjobs.select(tier, ["B2"], r'\bC03\b', mutant) + outdirtyjobs.select(tier, ["O1"], r'\bC03\b', mutant) + scanjobs.select(tier, ["S3"], r'\bC03\b', mutant)
 
 
 def _m(target, old, new):
@@ -42,6 +43,7 @@ MUTANTS = [
     ("every_restat_output_cleaned", _m("FinishCommand", "if ((*o)->mtime() == new_mtime && restat) {", "if (restat) {")),
     ("non_restat_outputs_cleaned", _m("FinishCommand", "if ((*o)->mtime() == new_mtime && restat) {", "if ((*o)->mtime() == new_mtime) {")),
     ("generator_command_change_rebuilds", _m("RecomputeOutputDirty", "IF_FIRSTRUN (!generator_ && commandHash_() != entry->command_hash) {", "IF_FIRSTRUN (commandHash_() != entry->command_hash) {")),
+    ("order_only_input_makes_dirty", _m("RecomputeEdgesInputsDirty", "if (!edge->is_order_only(i - edge->inputs_.cbegin())) {", "if (true) {")),
     ("deps_missing_ignored", _m("CleanNode", "    if ((*oe)->deps_missing_)\n      continue;\n", "")),
 ]
 
